@@ -49,8 +49,16 @@ def _run(task):
         env = {**os.environ, "PYTHONPATH": root, "JAX_PLATFORMS": "cpu",
                "XLA_FLAGS": "--xla_cpu_multi_thread_eigen=false intra_op_parallelism_threads=2",
                "OMP_NUM_THREADS": "2"}
+        sub = "tests/"
+        if os.environ.get("VIA_SUBSET"):
+            for pre, t in (("liesel/goose/", "tests/goose"), ("liesel/model/", "tests/model"),
+                           ("liesel/distributions/", "tests/distributions"),
+                           ("liesel/bijectors/", "tests/bijectors"),
+                           ("liesel/experimental/", "tests/experimental")):
+                if relpath.startswith(pre):
+                    sub = t
         r = subprocess.run(["/venv/bin/python", "-m", "pytest", "-x", "-q", "-p",
-                            "no:cacheprovider", "--timeout=900", "tests/"],
+                            "no:cacheprovider", "--timeout=900", sub],
                            cwd=root, env=env, capture_output=True, text=True, timeout=1500)
         tail = (r.stdout.strip().splitlines() or [""])[-1]
         status = "tests-pass" if r.returncode == 0 else "tests-fail"
